@@ -5,6 +5,11 @@
 // result:    new:ok;<r1>;<r2>;...      add/rm -> ok | err:full | err:len | err:other
 //                                       ex -> 0|1   len -> n   full -> 0|1
 //                                       dump -> ha=<b>:<n>,..|nx=<n>,..|fr=<n>|ln=<n>|k=<hex>,..
+//            every add/rm/ex answer is followed by /<Len()>/<Full()> observed right after the call (also after failed
+//            calls), and the caller's key slice is overwritten after every call (the set must hold its own copy).
+//            h=nil passes a nil hash function (NewHashSet then uses murmur3): dump prints only ln=<n>.
+// pool line: P,n=<elemNum>,es=<size>,fix=<0|1>;set:<index>:<hex>;get:<index>;max   drives byte_pool.BytePool /
+//            FixedBytePool directly -> P;ok|err:index|err:size;<hex of Get>;<MaxElemSize>
 package main
 
 import (
@@ -15,6 +20,7 @@ import (
 	"time"
 
 	"bfeverif/harness/internal/vh"
+	"github.com/bfenetworks/bfe/bfe_util/byte_pool"
 	"github.com/bfenetworks/bfe/bfe_util/hash_set"
 )
 
@@ -61,7 +67,7 @@ func hashByName(name string) func([]byte) uint64 {
 	return nil
 }
 
-var hashNames = []string{"c", "sum", "len", "b0", "fnv", "big"}
+var hashNames = []string{"c", "sum", "len", "b0", "fnv", "big", "nil"}
 
 func genKey(r *vh.Rand, es int, pool [][]byte) []byte {
 	// mostly keys from a small pool (so that re-add / remove / collisions happen), valid length
@@ -90,13 +96,48 @@ func genKey(r *vh.Rand, es int, pool [][]byte) []byte {
 	return b
 }
 
+func genPool(r *vh.Rand) string {
+	n, es, fix := r.Range(1, 6), r.Range(1, 5), r.Intn(2)
+	var sb strings.Builder
+	fmt.Fprintf(&sb, "P,n=%d,es=%d,fix=%d", n, es, fix)
+	for i, k := 0, r.Range(1, 40); i < k; i++ {
+		switch x := r.Intn(10); {
+		case x < 5:
+			l := es
+			if r.Chance(1, 2) {
+				l = r.Range(0, es+1)
+			}
+			idx := r.Intn(n)
+			if r.Chance(1, 10) {
+				idx = n + r.Intn(2) // index out of range
+			}
+			fmt.Fprintf(&sb, ";set:%d:%s", idx, vh.Hex(r.Bytes(l)))
+		case x < 9:
+			fmt.Fprintf(&sb, ";get:%d", r.Intn(n))
+		default:
+			sb.WriteString(";max")
+		}
+	}
+	for i := 0; i < n; i++ {
+		fmt.Fprintf(&sb, ";get:%d", i)
+	}
+	return sb.String()
+}
+
 func gen(r *vh.Rand) string {
+	if r.Chance(1, 12) {
+		return genPool(r)
+	}
 	capN := r.Range(1, 16)
 	if r.Chance(1, 3) {
 		capN = r.Range(1, 4)
 	}
 	if r.Chance(1, 60) {
 		capN = 0
+	}
+	big := vh.Thorough && r.Chance(1, 40)
+	if big {
+		capN = r.Range(17, 200) // long chains, long free lists
 	}
 	es := r.Range(1, 5)
 	if r.Chance(1, 80) {
@@ -121,6 +162,9 @@ func gen(r *vh.Rand) string {
 		pool = append(pool, b)
 	}
 	nops := r.Range(1, 70)
+	if big {
+		nops = r.Range(100, 500)
+	}
 	phase := 0 // 0 fill, 1 drain, 2 mixed: heavy remove / re-add
 	for i := 0; i < nops; i++ {
 		if r.Chance(1, 12) {
@@ -225,8 +269,77 @@ func exec(op string) string {
 	return res
 }
 
+func errPool(err error) string {
+	if err == nil {
+		return "ok"
+	}
+	if strings.Contains(err.Error(), "index") {
+		return "err:index"
+	}
+	return "err:size"
+}
+
+func runPool(parts []string) string {
+	var n, es, fix int
+	for _, kv := range strings.Split(parts[0], ",")[1:] {
+		p := strings.SplitN(kv, "=", 2)
+		if len(p) != 2 {
+			return "bad-op"
+		}
+		v, _ := strconv.Atoi(p[1])
+		switch p[0] {
+		case "n":
+			n = v
+		case "es":
+			es = v
+		case "fix":
+			fix = v
+		}
+	}
+	if n < 1 || n > 1<<12 || es < 1 || es > 1<<10 {
+		return "bad-op"
+	}
+	var pool byte_pool.IBytePool
+	if fix == 1 {
+		pool = byte_pool.NewFixedBytePool(n, es)
+	} else {
+		pool = byte_pool.NewBytePool(n, es)
+	}
+	out := []string{"P"}
+	for _, o := range parts[1:] {
+		f := strings.Split(o, ":")
+		switch {
+		case f[0] == "set" && len(f) == 3:
+			i, err := strconv.Atoi(f[1])
+			k, ok := vh.UnHex(f[2])
+			if err != nil || !ok || i < 0 {
+				return "bad-op"
+			}
+			k = append([]byte(nil), k...)
+			out = append(out, errPool(pool.Set(int32(i), k)))
+			for j := range k { // the pool must hold its own copy
+				k[j] ^= 0xa5
+			}
+		case f[0] == "get" && len(f) == 2:
+			i, err := strconv.Atoi(f[1])
+			if err != nil || i < 0 || i >= n {
+				return "bad-op"
+			}
+			out = append(out, vh.Hex(pool.Get(int32(i))))
+		case o == "max":
+			out = append(out, strconv.Itoa(pool.MaxElemSize()))
+		default:
+			return "bad-op"
+		}
+	}
+	return strings.Join(out, ";")
+}
+
 func run(op string) string {
 	parts := strings.Split(op, ";")
+	if strings.HasPrefix(parts[0], "P,") {
+		return runPool(parts)
+	}
 	var capN, es, fix int
 	var hn string
 	for _, kv := range strings.Split(parts[0], ",") {
@@ -246,7 +359,7 @@ func run(op string) string {
 		}
 	}
 	hf := hashByName(hn)
-	if hf == nil || capN > 1<<16 || es > 1<<10 {
+	if (hf == nil && hn != "nil") || capN > 1<<16 || es > 1<<10 {
 		return "bad-op"
 	}
 	set, err := hash_set.NewHashSet(capN, es, fix == 1, hf)
@@ -276,6 +389,14 @@ func run(op string) string {
 					res = "0"
 				}
 			}
+			for j := range k { // the set must hold its own copy of the key
+				k[j] ^= 0xa5
+			}
+			full := "0"
+			if set.Full() {
+				full = "1"
+			}
+			res += "/" + strconv.Itoa(set.Len()) + "/" + full
 		case o == "len":
 			res = strconv.Itoa(set.Len())
 		case o == "full":
@@ -284,6 +405,8 @@ func run(op string) string {
 			} else {
 				res = "0"
 			}
+		case o == "dump" && hn == "nil":
+			res = "ln=" + strconv.Itoa(set.Len()) // bucket placement by murmur3 is not modelled
 		case o == "dump":
 			res = dump(set)
 		default:
